@@ -16,9 +16,10 @@ import trio.testing
 import trio._core._run as _trio_run
 
 import httpcore
+from . import simnet
 from .simnet import Net
 
-HORIZON = 1.0e6  # virtual seconds: reaching it means "blocked forever"
+HORIZON = 1.0e12  # virtual seconds: outer safety net; scenarios use world.guarded (1e5)
 T0 = 1000.0
 
 
@@ -141,7 +142,9 @@ def run_asyncio(main, net: Net, on_idle=None):
 
     async def outer():
         loop = asyncio.get_running_loop()
-        net.now = loop.time
+        if net is not None:
+            net.now = loop.time
+        simnet.ENV["now"] = loop.time
         patch_time(loop.time)
         try:
             with anyio.move_on_after(HORIZON - T0) as scope:
@@ -150,33 +153,25 @@ def run_asyncio(main, net: Net, on_idle=None):
                 raise Hang("virtual watchdog: blocked forever")
         finally:
             unpatch_time()
+            simnet.ENV["now"] = None
 
     return anyio.run(outer, backend="asyncio", backend_options={"loop_factory": factory})
 
 
-class _Clock(trio.abc.Clock):
-    """Virtual clock for trio: jumps to the next deadline whenever everything is idle
-    (same mechanism as trio.testing.MockClock(autojump_threshold=0), which is final)."""
+def _Clock(on_idle=None):
+    """trio.testing.MockClock(autojump_threshold=0) with a quiescence hook. MockClock is
+    final and trio's run loop insists on that class, so the hook is installed on the
+    instance: it runs exactly when trio found everything idle, before the clock jumps."""
+    clock = trio.testing.MockClock(autojump_threshold=0)
+    if on_idle is not None:
+        orig = clock._autojump
 
-    def __init__(self, on_idle=None):
-        self.t = 0.0
-        self._hv_on_idle = on_idle
+        def _autojump():
+            on_idle()
+            orig()
 
-    def start_clock(self) -> None:
-        _trio_run.GLOBAL_RUN_CONTEXT.runner.clock_autojump_threshold = 0
-
-    def current_time(self) -> float:
-        return self.t
-
-    def deadline_to_sleep_time(self, deadline: float) -> float:
-        return 0 if deadline <= self.t else 999999999
-
-    def _autojump(self) -> None:
-        if self._hv_on_idle is not None:
-            self._hv_on_idle()
-        jump = trio.lowlevel.current_statistics().seconds_to_next_deadline
-        if 0 < jump < float("inf"):
-            self.t += jump
+        clock._autojump = _autojump
+    return clock
 
 
 def run_trio(main, net: Net, seed: int = 0, on_idle=None):
@@ -190,7 +185,9 @@ def run_trio(main, net: Net, seed: int = 0, on_idle=None):
         def now():
             return T0 + (trio.current_time() - base)
 
-        net.now = now
+        if net is not None:
+            net.now = now
+        simnet.ENV["now"] = now
         patch_time(now)
         try:
             with trio.move_on_after(HORIZON - T0) as scope:
@@ -199,6 +196,7 @@ def run_trio(main, net: Net, seed: int = 0, on_idle=None):
                 raise Hang("virtual watchdog: blocked forever")
         finally:
             unpatch_time()
+            simnet.ENV["now"] = None
 
     return trio.run(outer, clock=clock)
 
